@@ -663,7 +663,8 @@ def systematic_stories(rng, n_bases):
 
 def story_text(st):
     return {"scenario": [list(a) if not isinstance(a, tuple) else a for a in st["scenario"]], "expect": st["expect"],
-            "scripts": {str(k): v for k, v in st["scripts"].items()}, "keepalive": st["keepalive"], "login": st.get("login", False)}
+            "scripts": {str(k): v for k, v in st["scripts"].items()}, "keepalive": st["keepalive"], "login": st.get("login", False),
+            **{k: st[k] for k in ("hook", "probe") if k in st}}
 
 
 def story_from_json(d):
@@ -684,7 +685,8 @@ def story_from_json(d):
             return ("send", list(a[1]))
         return tuple(a)
     return {"scenario": [act(a) for a in d["scenario"]], "expect": d["expect"],
-            "scripts": {int(k): [tuple(x) for x in v] for k, v in d["scripts"].items()}, "keepalive": d["keepalive"], "login": d.get("login", False)}
+            "scripts": {int(k): [tuple(x) for x in v] for k, v in d["scripts"].items()}, "keepalive": d["keepalive"], "login": d.get("login", False),
+            **{k: d[k] for k in ("hook", "probe") if k in d}}
 
 
 def shrink(story, still_fails, budget=60):
